@@ -483,4 +483,76 @@ theorem inv_quiescent (s : St) (hspan : s.pruneSpan.isSome = true) (hu : s.packs
   obtain ⟨p, hpm, h⟩ := hs c hc k hk
   exact ⟨p, hpm, h.1, h.2.1, h.2.2, by simp [hp]⟩
 
+/-! ### the follow-up prune, pack by pack -/
+
+/-- what `followupPrune` does to one pack (the body of its `map`) -/
+theorem followupPrune_packs (s : St) : (followupPrune s).packs = s.packs.map (fun p =>
+      let used := s.snaps.any (fun c => c.any (fun k => p.blobs.contains k))
+      match p.status with
+      | .marked t => if used then { p with status := .unmarked }
+                     else if decide (t + s.keepDelete ≤ s.now) then { p with status := .unlisted, stored := false } else p
+      | .unmarked => if used then p else { p with status := .marked s.now }
+      | .unlisted => p) := rfl
+
+theorem used_of_mem {s : St} {p : PackSt} {c : List Key} {k : Key} (hc : c ∈ s.snaps) (hk : k ∈ c) (hb : k ∈ p.blobs) :
+    (s.snaps.any fun c => c.any fun k => p.blobs.contains k) = true := by
+  simp only [List.any_eq_true, List.contains_iff_mem]
+  exact ⟨c, hc, k, hk, hb⟩
+
+/-- Recover does not look at the mark's time: a marked pack holding a key of a visible snapshot becomes unmarked, for
+EVERY mark time `t` and every `now` -/
+theorem followup_recovers_marked {s : St} {p : PackSt} {t : Int} {c : List Key} {k : Key} (hp : p ∈ s.packs)
+    (hm : p.status = .marked t) (hc : c ∈ s.snaps) (hk : k ∈ c) (hb : k ∈ p.blobs) :
+    { p with status := .unmarked } ∈ (followupPrune s).packs := by
+  rw [followupPrune_packs, List.mem_map]
+  refine ⟨p, hp, ?_⟩
+  simp only [hm, used_of_mem hc hk hb, if_true]
+
+/-- the age of a mark only matters for packs NO snapshot needs: those are removed once `t + keep_delete ≤ now` -/
+theorem followup_deletes_old_unused {s : St} {p : PackSt} {t : Int} (hp : p ∈ s.packs) (hm : p.status = .marked t)
+    (hu : (s.snaps.any fun c => c.any fun k => p.blobs.contains k) = false) (hold : t + s.keepDelete ≤ s.now) :
+    { p with status := .unlisted, stored := false } ∈ (followupPrune s).packs := by
+  rw [followupPrune_packs, List.mem_map]
+  refine ⟨p, hp, ?_⟩
+  simp only [hm, hu, Bool.false_eq_true, if_false, decide_eq_true hold, if_true]
+
+/-- no prune step of the model touches a blob list: every pack of `followupPrune s` has the id and the blobs of a pack of `s` -/
+theorem followup_keeps_blobs {s : St} {p : PackSt} (hp : p ∈ s.packs) :
+    ∃ q ∈ (followupPrune s).packs, q.id = p.id ∧ q.blobs = p.blobs := by
+  rw [followupPrune_packs]
+  refine ⟨_, List.mem_map.mpr ⟨p, hp, rfl⟩, ?_⟩
+  cases hs : p.status with
+  | unlisted => exact ⟨rfl, rfl⟩
+  | unmarked => dsimp only; split <;> exact ⟨rfl, rfl⟩
+  | marked t => dsimp only; split; · exact ⟨rfl, rfl⟩
+                split <;> exact ⟨rfl, rfl⟩
+
+/-- `KeepMarked`: a marked pack that plan `pr` does not delete goes through `pr`'s index rewrite unchanged — same mark time,
+same blob list -/
+theorem rewritePack_keepMarked {pr : Prune} {p : PackSt} {t : Int} (hm : p.status = .marked t) (hk : p.id ∉ pr.toDelete) :
+    rewritePack pr p = p := by
+  unfold rewritePack
+  have h1 : (pr.toMark.contains p.id && p.status == .unmarked) = false := by
+    rw [hm]; simp
+  have h2 : pr.toDelete.contains p.id = false := by simpa using hk
+  simp only [h1, h2, Bool.false_eq_true, if_false]
+
 end Rustic.Interleave
+
+namespace Rustic.Repo
+/-! ### protocol model: a prune's index rewrite (used by Props/C10) -/
+
+/-- removing index files other than `i` keeps `i` listed and does not touch the pack files -/
+theorem removeIndexes_keep : ∀ (rm : List Nat) (r : Repo) (i : IndexFile), i ∈ r.indexes → i.id ∉ rm →
+    i ∈ (applyAll r (rm.map .removeIndex)).indexes ∧ (applyAll r (rm.map .removeIndex)).packs = r.packs
+  | [], r, i, hi, _ => ⟨hi, rfl⟩
+  | id :: rm, r, i, hi, hn => by
+    simp only [List.map_cons, applyAll, List.foldl_cons]
+    have hne : i.id ≠ id := fun e => hn (e ▸ List.mem_cons_self ..)
+    have hi' : i ∈ (apply r (.removeIndex id)).indexes := by
+      simp only [apply, List.mem_filter, bne_iff_ne, ne_eq]
+      exact ⟨hi, hne⟩
+    have := removeIndexes_keep rm (apply r (.removeIndex id)) i hi' (fun h => hn (List.mem_cons_of_mem _ h))
+    exact ⟨this.1, this.2.trans rfl⟩
+
+end Rustic.Repo
